@@ -23,7 +23,11 @@ type alpha struct {
 }
 
 func models(c *vf.Ctx) []*chain.Model {
-	alphas := []alpha{{"payments", chain.AlphaPayments}, {"siafunds", chain.AlphaSiafunds}, {"v1contracts", chain.AlphaV1Contracts}, {"v2contracts", chain.AlphaV2Contracts}}
+	pay := chain.AlphaPayments
+	if !c.Quick() {
+		pay = chain.AlphaPaymentsThorough
+	}
+	alphas := []alpha{{"payments", pay}, {"siafunds", chain.AlphaSiafunds}, {"v1contracts", chain.AlphaV1Contracts}, {"v2contracts", chain.AlphaV2Contracts}}
 	nets := []string{"v1-eras", "mixed", "v2-only", "v2-eph5"}
 	if !c.Quick() {
 		nets = append(nets, "v1-early", "v1-mid")
@@ -142,7 +146,7 @@ func replay(c *vf.Ctx, raw json.RawMessage) {
 	w := chain.ReplayTraceWorld(c, raw, func(name string) func(w *chain.World) []chain.Action {
 		switch name {
 		case "payments":
-			return chain.AlphaPayments
+			return chain.AlphaPaymentsThorough
 		case "siafunds":
 			return chain.AlphaSiafunds
 		case "v1contracts":
